@@ -111,6 +111,9 @@ def check_core_family(prop, tier):
         "tolerated_accepted": s["tolerated_accepted"],
         "tolerated_rejected": s["tolerated_rejected"],
         "mutants_by_edit_kind": s["mutants_by_edit_kind"],
+        "advisory_error_variant_agreement": "%d of %d rejections carried the PasetoError variant the step-by-step model names (never an alarm)"
+                                            % (s.get("advisory_variant_agree", 0), s.get("advisory_variant_total", 0)),
+        "advisory_error_variant_disagreements": s.get("advisory_variant_disagree", {}),
         "exhaustive": False,
     }
     coverage.update(extra_cov)
